@@ -17,6 +17,7 @@ var Registry = map[string]func(*core.Run){
 	"C14": C14,
 	"C16": C16,
 	"C17": C17,
+	"C18": C18,
 	"C20": C20,
 	"C04": C04,
 	"C05": C05,
